@@ -960,4 +960,46 @@ def search(res, tier, boost=False):
         gamma, mesh = search_mesh(rng, cname, 'random', tier)
         r = trig_residual(1.0, 0.5, 1.0, rng.random())
         check_assembly(res, rng, cname, mesh, rng.choice([3, 5, 9]), r, worst, pool_cpu=None, symmetric=False)
+    # estimator cache files: two DIFFERENT meshes of one problem with equally many elements and the same sequence of element
+    # numbers (4x2 and 8x1 root cells; time-then-space vs space-then-time refinement) against ONE cache directory, and the
+    # elements of one mesh in two orders: every call returns the indicators of its own elements
+    import shutil
+    import tempfile
+    from src.error_estimator import ErrorEstimator
+    from src.mesh import MeshParametrized
+    import src.parametrization as Pm_
+    cdir = tempfile.mkdtemp(prefix='c09cache_', dir='/tmp')
+    try:
+        r_c = trig_residual(1.0, 0.5, 1.0, 0.3)
+        with silence_stdout():
+            gam_c = Pm_.UnitSquare()
+            m_a = MeshParametrized(gam_c, initial_time_mesh=[0., 0.5, 1.])                                   # 4 x 2 root cells
+            m_b = MeshParametrized(gam_c, initial_space_mesh=[0., .5, 1., 1.5, 2., 2.5, 3., 3.5, 4.])         # 8 x 1 root cells
+            m_c = MeshParametrized(gam_c)
+            m_d = MeshParametrized(gam_c)
+            e0 = list(m_c.leaf_elements)[0]
+            for ch in m_c.refine_time(e0):
+                pass
+            m_c.refine_space(list(m_c.leaf_elements)[-1])
+            f0 = list(m_d.leaf_elements)[0]
+            m_d.refine_space(f0)
+            m_d.refine_time(list(m_d.leaf_elements)[-1])
+        for label, meshes in (('root-grids', (m_a, m_b)), ('refinement-order', (m_c, m_d))):
+            for mesh_q in meshes:
+                with silence_stdout():
+                    est_q = ErrorEstimator(mesh_q, N_poly=5, cache_dir=cdir, problem='shared')
+                    els_q = list(mesh_q.leaf_elements)
+                    got_l2 = np.array(est_q.estimate_weighted_l2(els_q, r_c), dtype=float)
+                    got_sl = np.array(est_q.estimate_sobolev(els_q, r_c), dtype=float)
+                    ref_q = ErrorEstimator(mesh_q, N_poly=5)
+                    want_l2 = np.array([ref_q.weighted_l2(e, r_c) for e in els_q], dtype=float)
+                    want_sl = np.array([[ref_q.sobolev_time(e, r_c)[0], ref_q.sobolev_space(e, r_c)[0]] for e in els_q])
+                res.count(('estimator-cache', label, id(mesh_q) % 1000), True)
+                if got_l2.shape != want_l2.shape or not np.allclose(got_l2, want_l2, rtol=1e-12, atol=0):
+                    report(res, 'C09:cache-changes-result:weighted-l2:%s' % label, dict(meshes=label, leaves=len(els_q),
+                           note='two meshes with equally many elements and equal element numbers against one cache directory'))
+                if got_sl.shape != want_sl.shape or not np.allclose(got_sl, want_sl, rtol=1e-11, atol=0):
+                    report(res, 'C09:cache-changes-result:sobolev:%s' % label, dict(meshes=label, leaves=len(els_q)))
+    finally:
+        shutil.rmtree(cdir, ignore_errors=True)
     res.notes['search_worst_relative_errors'] = {k: float('%.3g' % v) for k, v in sorted(worst.items())}
